@@ -256,6 +256,8 @@ class LayerRuleMatcher(RuleMatcher):
                 )
 
             else:
-                result = result + module_name_conversion_mapping[module.identifier]
+                result = result + module_name_conversion_mapping.get(
+                    module.identifier, []
+                )
 
         return result
